@@ -158,6 +158,9 @@ func init() {
 	mut("C20", "revert-fix-parent-lookup", sb, "\tif parent == nil || !parent.accepted || parent.ID() != b.Parent() {", "\tif parent == nil {", "unchecked parent handed to the chain")
 	mut("C20", "revert-fix-build-guard", "snow/vm.go", "\tif !v.ready || !preferredBlk.verified {", "\tif !v.ready {", "build on an unverified preference")
 	mut("C10", "revert-fix-readmission-prune", "vm/vm.go", "\t\t\tif lastAccepted, err := vm.LastAcceptedBlock(ctx); err == nil {\n\t\t\t\tvm.mempool.SetMinTimestamp(ctx, lastAccepted.Tmstmp)\n\t\t\t}\n", "", "expired transactions re-admitted from rejected blocks")
+	mut("C26", "revert-fix-serial-wait", "internal/workers/serial_workers.go", "\t<-j.done\n", "", "serial Wait returns before Done")
+	mut("C16", "revert-fix-serial-wait", "internal/workers/serial_workers.go", "\t<-j.done\n", "", "serial Wait returns before Done")
+	mut("C22", "revert-fix-response-budget", "internal/validitywindow/handler.go", "\t\tif len(blocks) > 0 && responseBytes+len(blockBytes) > maxResponseBytes {\n\t\t\treturn blocks, nil\n\t\t}\n", "", "no byte budget on block-fetch answers")
 	mut("C23", "revert-fix-front-order", mp, "\t\t\titem = items[len(items)-1-i]", "\t\t\titem = items[i]", "restored block reversed")
 	mut("C23", "revert-fix-prefetched-after-given", mp, "\t\tm.nextStreamFetched = false\n\t}\n\tm.add(restorable, true)\n\tm.streamLock.Unlock()", "\t\tm.nextStreamFetched = false\n\t}\n\tm.streamLock.Unlock()", "given-back items dropped / wrong order")
 	mut("C23", "revert-fix-lock-order", mp, "\tm.streamLock.Lock()\n\n\tm.mu.Lock()\n\tdefer m.mu.Unlock()\n\n\tm.streamedItems", "\tm.mu.Lock()\n\tdefer m.mu.Unlock()\n\n\tm.streamLock.Lock()\n\tm.streamedItems", "StartStreaming waits for the stream lock holding mu")
